@@ -18,6 +18,7 @@ import GoldilocksVerif.Lemmas.ParCopyL
 import GoldilocksVerif.Props.C02
 import GoldilocksVerif.Props.C11
 import GoldilocksVerif.Lemmas.BridgeParcpy
+import GoldilocksVerif.Lemmas.BridgeParcpyZero
 
 namespace GoldilocksVerif.C17
 open GoldilocksVerif
@@ -171,8 +172,9 @@ theorem C17_parSetZero_seq (dst : Region) (size : Nat) (nt : Int) (j : Nat) :
 example : ParCopy.starts 10 3 = [0, 4, 8] ∧ ParCopy.starts 10 (-5) = [0] ∧ ParCopy.starts 0 4 = [] ∧
     ParCopy.len 10 3 8 = 2 := by decide
 
-/-! ### (3') the TRANSLATED `Goldilocks::parcpy` (Gen/NttGen.lean, heap mode of the translator: pointers are block + offset)
-  `parcpy` is translated from the C++ text on every run because `NTT_iters` calls it (size 1).  Heap view: `hp` is the list of
+/-! ### (3') the TRANSLATED `Goldilocks::parcpy` (Gen/NttGen.lean) and `Goldilocks::parSetZero` (Gen/ParZeroGen.lean), heap mode
+  of the translator: pointers are block + offset.
+  `parcpy` is translated from the C++ text on every run because `NTT_iters` calls it (size 1); `parSetZero` as a module of its own.  Heap view: `hp` is the list of
   memory blocks, `⟨D, od⟩` / `⟨S, os⟩` the destination / source pointers (block number, word offset), `bv n = BitVec.ofNat 64 n`. -/
 section generated
 open GoldilocksVerif.BridgeNtt Gen.NttGen
@@ -196,6 +198,21 @@ theorem C17_generated_parcpy (fuel : Nat) (hp : Heap) (D S od os n : Nat) (nt : 
 /-- the fuel bound, spelled out -/
 theorem C17_generated_parcpy_fuel (n : Nat) (nt : Int) :
     parFuel n nt = min n (if nt < 1 then 1 else nt.toNat) + 1 := rfl
+
+/-- **generated `parSetZero`** (Gen/ParZeroGen.lean, translated from the current text of `Goldilocks::parSetZero`; Lemmas/BridgeParcpyZero.lean):
+    for every size `n` (0 included; `8·n < 2^64`), every `int` thread count `nt` (zero and negative included) and every fuel above
+    the number of chunks (`parFuel n nt`), the translated function returns; the heap differs from the one before in the destination
+    block only; that block keeps its size, the words `od … od+n-1` that lie inside it are zero, every other word is unchanged:
+    exactly `n` words are zeroed.  When the destination range lies inside the block, the region the destination pointer designates
+    is `ParCopy.parSetZero` of the region before (the hand model of (3)). -/
+theorem C17_generated_parSetZero (fuel : Nat) (hp : Heap) (D od n : Nat) (nt : Int) (hD : D < hp.size)
+    (hn8 : n * 8 < 2 ^ 64) (hnt : nt < 2 ^ 63) (hf : parFuel n nt ≤ fuel) :
+    ∃ B', Gen.ParZeroGen.parSetZero fuel hp ⟨D, od⟩ (bv n) nt = some (hp.setBlock D B') ∧ B'.size = (hp.block D).size ∧
+      (∀ j, B'.getD j 0#64 = if od ≤ j ∧ j < od + n ∧ j < (hp.block D).size then 0#64 else (hp.block D).getD j 0#64) ∧
+      (od + n ≤ (hp.block D).size → ∀ j, B'.getD (od + j) 0#64 =
+        (ParCopy.parSetZero ⟨fun j => (hp.block D).getD (od + j) 0#64⟩ n nt) j) :=
+  ⟨_, parSetZero_gen fuel hp D od n nt hD hn8 hnt hf, Model.Ntt.zeroRow_size _ _ _,
+    fun j => Model.Ntt.zeroRow_getD _ _ _ j, fun hfit j => parSetZero_gen_region hp D od n nt hfit j⟩
 
 end generated
 
